@@ -9,8 +9,10 @@ package main
 
 import (
 	"bytes"
+	"encoding/binary"
 	"encoding/hex"
 	"encoding/json"
+	"fmt"
 	"os"
 
 	"github.com/lavanet/lava/v5/utils/sigs"
@@ -28,6 +30,8 @@ type line struct {
 	ID    int                        `json:"id"`
 	R1    map[string]json.RawMessage `json:"r1"`
 	R2    map[string]json.RawMessage `json:"r2"`
+	E1    []string                   `json:"e1"` // real GetContentHashData bytes of r1, one letter per 8-byte chunk
+	E2    []string                   `json:"e2"`
 	H1    string                     `json:"h1"`
 	H2    string                     `json:"h2"`
 	Equal bool                       `json:"equal"` // real content hashes equal
@@ -40,6 +44,24 @@ func chunk(letter string) []byte {
 		hx.Die("bad letter %q", letter)
 	}
 	return sigs.EncodeUint64(uint64(letter[0]-'a') + 1)
+}
+
+// letters decodes real hash-input bytes back into model letters ("#..." = not a letter chunk)
+func letters(b []byte) []string {
+	res := []string{}
+	for len(b) >= 8 {
+		v := binary.LittleEndian.Uint64(b[:8])
+		if v >= 1 && v <= 26 {
+			res = append(res, string(rune('a'+v-1)))
+		} else {
+			res = append(res, fmt.Sprintf("#%x", v))
+		}
+		b = b[8:]
+	}
+	if len(b) > 0 {
+		res = append(res, fmt.Sprintf("!%x", b))
+	}
+	return res
 }
 
 func str(raw json.RawMessage) []byte {
@@ -102,7 +124,7 @@ func main() {
 		reuse := bytes.Equal(session.ContentHash, sigs.HashMsg(d2.GetContentHashData()))
 		b1, _ := d1.Marshal()
 		b2, _ := d2.Marshal()
-		out.Emit(line{ID: id, R1: p.R1, R2: p.R2, H1: hex.EncodeToString(h1[:6]), H2: hex.EncodeToString(h2[:6]),
+		out.Emit(line{ID: id, R1: p.R1, R2: p.R2, E1: letters(d1.GetContentHashData()), E2: letters(d2.GetContentHashData()), H1: hex.EncodeToString(h1[:6]), H2: hex.EncodeToString(h2[:6]),
 			Equal: bytes.Equal(h1, h2), Reuse: reuse, Same: bytes.Equal(b1, b2) && len(d1.Metadata) == len(d2.Metadata) && len(d1.Extensions) == len(d2.Extensions)})
 	}
 }
